@@ -278,6 +278,8 @@ func (rn *runner) exec(c tcase, seed int64) {
 		rn.fsizeLimit(c, env, repo, path, abs, b, checkCleaned, checkSmudged)
 	case "ext-chain":
 		rn.extChain(c, env, repo, gitDir, path, abs, b, checkSmudged)
+	case "store-damage":
+		rn.storeDamage(c, env, repo, gitDir, path, abs, b, checkCleaned, checkSmudged)
 	}
 }
 
@@ -722,7 +724,7 @@ func min(a, b int) int {
 func main() {
 	run := evid.New("C01", "exploration")
 	defer sbx.RemoveBase()
-	run.Rule = "seeded cases over sizes {0,1,2,100,1023,1024,1025,4096,65515,65516,65517,131075,(3MB)} x content {random, text LF/CRLF, zeros, pointer-prefix+payload, pointer look-alike, complete pointer-shaped texts that are not pointers (negative/empty/overflowing/hex/float size, oid of 63/65/upper-case/non-hex digits or type md5, unknown or missing version, missing size)} x mode {one-shot clean/smudge fed through a pipe in write(2) chunk plans whole/1/7/512/1023/1024/1025/4096/random with pauses, filter-process via an independent pkt-line client with packet sizes 1/2/100/8192/65515/65516/random, git add + git checkout (process and one-shot filters), git hash-object --path --stdin (process and one-shot), git merge through git lfs merge-driver with merged pointer shorter/equal/longer than the overwritten one} x working-tree file at the path {absent, same, empty, 10 bytes, 1024 bytes, longer} x {no extension, one reversible extension, two or three chained extensions}; plus a pointer extension whose clean or smudge program fails (partial output + exit 3, no output + exit 1, full output + exit 1, smudge side not inverting the transform) or whose configuration changes between clean and smudge (removed, renamed, other priority) driven one-shot and by git add: the filter may refuse, but a reported success must still satisfy the oracle; the same with GIT_LFS_PROGRESS naming a usable file, a relative path, a path below a missing directory or below a plain file, a directory, /dev/full; and with RLIMIT_FSIZE of the filter process at 4096 bytes / half / 94 % / exactly / one more than the content size (writes to the temporary object file fail with EFBIG). Oracle: output parses as canonical pointer (ptrspec), oid/size = SHA-256/length of the stored object, stored object = input (or extension image), smudge output = input; merge result vs git merge-file. Class = all coordinates."
+	run.Rule = "seeded cases over sizes {0,1,2,100,1023,1024,1025,4096,65515,65516,65517,131075,(3MB)} x content {random, text LF/CRLF, zeros, pointer-prefix+payload, pointer look-alike, complete pointer-shaped texts that are not pointers (negative/empty/overflowing/hex/float size, oid of 63/65/upper-case/non-hex digits or type md5, unknown or missing version, missing size)} x mode {one-shot clean/smudge fed through a pipe in write(2) chunk plans whole/1/7/512/1023/1024/1025/4096/random with pauses, filter-process via an independent pkt-line client with packet sizes 1/2/100/8192/65515/65516/random, git add + git checkout (process and one-shot filters), git hash-object --path --stdin (process and one-shot), git merge through git lfs merge-driver with merged pointer shorter/equal/longer than the overwritten one} x working-tree file at the path {absent, same, empty, 10 bytes, 1024 bytes, longer} x {no extension, one reversible extension, two or three chained extensions}; plus a pointer extension whose clean or smudge program fails (partial output + exit 3, no output + exit 1, full output + exit 1, smudge side not inverting the transform) or whose configuration changes between clean and smudge (removed, renamed, other priority) driven one-shot and by git add: the filter may refuse, but a reported success must still satisfy the oracle; the same with GIT_LFS_PROGRESS naming a usable file, a relative path, a path below a missing directory or below a plain file, a directory, /dev/full; and with RLIMIT_FSIZE of the filter process at 4096 bytes / half / 94 % / exactly / one more than the content size (writes to the temporary object file fail with EFBIG); and with the stored object's length changed between clean and smudge (bytes appended, one byte short, emptied; smudged one-shot, through filter-process and by git checkout): smudge may refuse, a reported success must give back the original bytes. Oracle: output parses as canonical pointer (ptrspec), oid/size = SHA-256/length of the stored object, stored object = input (or extension image), smudge output = input; merge result vs git merge-file. Class = all coordinates."
 	run.Assumptions = []string{"inputs are non-pointers by construction (pointer pass-through is C08)", "pipe chunking with pauses is a legal OS schedule; nothing is assumed about timing", "git merge-file is the authority on the expected three-way merge result"}
 	rn := &runner{run: run}
 	r := rand.New(rand.NewSource(run.Seed))
@@ -846,6 +848,13 @@ func main() {
 		for _, via := range []string{"/oneshot", "/git-add"} {
 			for _, sz := range []int{5000, 70000, 200000}[:run.N(2, 3)] {
 				add(tcase{Mode: "fsize-limit", Size: sz, Content: "random", Wt: "absent", Chunk: kind, Pk: via})
+			}
+		}
+	}
+	for _, kind := range []string{"extended", "one-byte-short", "emptied"} {
+		for _, via := range []string{"/oneshot", "/filter-process", "/checkout"} {
+			for _, sz := range []int{1025, 70000, 200000}[:run.N(2, 3)] {
+				add(tcase{Mode: "store-damage", Size: sz, Content: "random", Wt: "absent", Chunk: kind, Pk: via})
 			}
 		}
 	}
